@@ -79,17 +79,32 @@ LIST_INDEX = z3.Function("ghost_index_in", SeqI, I, I)  # a function of the sequ
 
 def distinct_elements(seq, l=None):
     j = z3.Int("j!dn")
-    return z3.ForAll([j], z3.Implies(z3.And(j >= 0, j < z3.Length(seq)), LIST_INDEX(seq, seq[j]) == j), patterns=[seq[j]])
+    return z3.ForAll([j], z3.Implies(z3.And(j >= 0, j < z3.Length(seq)), LIST_INDEX(seq, seq[j]) == j))
 
 
 def qforall(vs, body, patterns=None):
     """ForAll with explicit triggers where z3 accepts them (a trigger may not contain ite)."""
-    if patterns:
+    if patterns and not any(_has_ite(p) for p in patterns):
         try:
             return z3.ForAll(vs, body, patterns=patterns)
         except z3.Z3Exception:
             pass
     return z3.ForAll(vs, body)
+
+
+def _has_ite(e):
+    """z3 rejects triggers that contain ite (and prints a warning); seq.nth expands to one."""
+    stack, seen = [e], set()
+    while stack:
+        x = stack.pop()
+        if x.get_id() in seen:
+            continue
+        seen.add(x.get_id())
+        if z3.is_app(x):
+            if x.decl().kind() in (z3.Z3_OP_ITE, z3.Z3_OP_SEQ_NTH):
+                return True
+            stack.extend(x.children())
+    return False
 
 
 _fresh_counter = itertools.count()
